@@ -154,6 +154,9 @@ def corpus():
 def generate(rng, tier):
     big = tier == 'thorough'
     out = []
+    # the real RandomIdGenerator sampled from several threads and across fork (fresh, non-zero ids)
+    for _ in range(200 if big else 25):
+        out.append(Case(f'rid {rng.randrange(1, 9)} {rng.randrange(1, 65)} {rng.randrange(2)}', HARNESSES[0].name, ('random-id', 'threads+fork')))
     for _ in range(60000 if big else 3000):
         out.append(program(rng, ('program', 'mixed')))
     # all 256 parent flag bytes, both explicit mechanisms, every sampler family
@@ -203,6 +206,8 @@ def spec_decision(parts, parent, name):
 def oracle(case, out):
     if out.startswith('CRASH'):
         return ('never-crashes', out)
+    if case.line.startswith('rid '):
+        return None if out == 'dups=0 zero=0 forkclash=0' else ('fresh-non-zero-ids-across-threads-and-fork', out)
     groups = case.line.split(' ; ')
     head = groups[0].split()
     if out == 'bad-op':
